@@ -18,7 +18,8 @@ CONSTANTS
   MaxR,      \* rounds 0..MaxR
   Blocks,    \* contents that can be signed
   MaxCrash,  \* bound on crashes in one behaviour
-  MaxFail    \* bound on failing writes in one behaviour
+  MaxFail,   \* bound on failing writes in one behaviour
+  Conc       \* BOOLEAN: a second requester may call the signer while a call is inside its durable write
 
 Steps  == 1..3
 NoFile == [h |-> -1, r |-> -1, s |-> -1, b |-> "nofile"]
@@ -38,19 +39,22 @@ VARIABLES
              \* history of releases is not kept: as long as NoConflictingRelease and Monotone held at every release so far the history is
              \* non-decreasing in (h,r,s) and all releases at the latest (h,r,s) carry maxrel.b, so comparing a new
              \* release with maxrel decides NoConflictingRelease and Monotone for the whole history (induction).
+  wait,      \* the request of a second caller that is blocked on privVal.mtx (NoFile: nobody waits).  SignVote /
+             \* SignProposal hold the mutex from the checks to the return, so a concurrent request cannot move between
+             \* the first one's check and its WriteBak / WriteNew / Rename: it is served (Enter2) when the lock is free.
   ncrash, nfail,
   res        \* output only: the last action
 
-vars == <<up, mem, main, bak, new, pc, pend, prev, maxrel, ncrash, nfail, res>>
+vars == <<up, mem, main, bak, new, pc, pend, prev, maxrel, wait, ncrash, nfail, res>>
 (* .bak and a left-over .new are never read by the code (LoadPrivValidator opens the main file only; Rename  *)
 (* happens only right after WriteNew, when new = pend), so they do not distinguish states.                  *)
-view == <<up, mem, main, pc, pend, prev, maxrel, ncrash, nfail>>
+view == <<up, mem, main, pc, pend, prev, maxrel, wait, ncrash, nfail>>
 
 Init ==
   /\ up = TRUE /\ mem = Rec0 /\ main = Rec0          \* LoadOrGenPrivValidator: generate, SetFile, Save
   /\ bak = NoFile /\ new = NoFile
   /\ pc = "idle" /\ pend = Rec0 /\ prev = Rec0
-  /\ maxrel = Rec0
+  /\ maxrel = Rec0 /\ wait = NoFile
   /\ ncrash = 0 /\ nfail = 0
   /\ res = [op |-> "init", rel |-> NoFile]
 
@@ -69,10 +73,11 @@ Class(h, r, s, b) ==
          THEN (IF mem.b # "none" /\ mem.b = b THEN "same" ELSE "regress")
   ELSE "sign"
 
-Request(h, r, s, b, c) ==
+(* one call of SignVote / SignProposal entering with the mutex: the checks and, for "sign", the start of save() *)
+Serve(op, h, r, s, b, c) ==
   /\ up /\ pc = "idle"
   /\ c = Class(h, r, s, b)
-  /\ res' = [op |-> "Request", c |-> c, rel |-> IF c = "same" THEN mem ELSE NoFile]
+  /\ res' = [op |-> op, c |-> c, rel |-> IF c = "same" THEN mem ELSE NoFile]
   /\ UNCHANGED <<up, main, bak, new, ncrash, nfail>>
   /\ CASE c = "regress" -> UNCHANGED <<mem, pc, pend, prev, maxrel>>            \* error returned
        [] c = "same"    -> /\ maxrel' = mem                                      \* LastSignature returned again
@@ -83,6 +88,24 @@ Request(h, r, s, b, c) ==
                            /\ pc' = "bak"                                        \* the file exists: copy it first
                            /\ UNCHANGED maxrel
 
+Request(h, r, s, b, c) ==
+  /\ wait = NoFile            \* a caller already blocked on the mutex is served first (the driver issues no third one)
+  /\ Serve("Request", h, r, s, b, c)
+  /\ UNCHANGED wait
+
+(* a second caller asks while the first call is parked inside WriteFileAtomic: it blocks on the mutex *)
+Issue2(h, r, s, b) ==
+  /\ Conc /\ up /\ pc \in {"bak", "new", "rename"} /\ wait = NoFile
+  /\ wait' = [h |-> h, r |-> r, s |-> s, b |-> b]
+  /\ res' = [op |-> "Issue2", rel |-> NoFile]
+  /\ UNCHANGED <<up, mem, main, bak, new, pc, pend, prev, maxrel, ncrash, nfail>>
+
+(* the lock is free: the blocked caller enters with whatever the first call left behind *)
+Enter2(c) ==
+  /\ wait # NoFile
+  /\ Serve("Enter2", wait.h, wait.r, wait.s, wait.b, c)
+  /\ wait' = NoFile
+
 (* outcome of a sub-step other than ok.  "fail": the failpoint in front of the write returns an error;        *)
 (* "realfail": the failpoint lets the code go on and the REAL ioutil.WriteFile / os.Rename fails (the target of *)
 (* .bak / .new is a directory, the .new file has vanished before the rename).  Same action for the signer:      *)
@@ -90,17 +113,17 @@ Request(h, r, s, b, c) ==
 Fails ==           \* the write returns an error: save() fails, signBytesHRS restores Last* and returns the error
   /\ nfail < MaxFail /\ nfail' = nfail + 1
   /\ mem' = prev /\ pc' = "idle"
-  /\ UNCHANGED <<up, main, bak, new, pend, prev, maxrel, ncrash>>
+  /\ UNCHANGED <<up, main, bak, new, pend, prev, maxrel, wait, ncrash>>
 Crashes ==         \* the process dies before the write
   /\ ncrash < MaxCrash /\ ncrash' = ncrash + 1
-  /\ up' = FALSE /\ mem' = Down /\ pc' = "idle"
+  /\ up' = FALSE /\ mem' = Down /\ pc' = "idle" /\ wait' = NoFile       \* a blocked caller dies with the process
   /\ UNCHANGED <<main, bak, new, pend, prev, maxrel, nfail>>
 
 WriteBak(f) ==     \* ioutil.WriteFile(filePath+".bak", <current file>)
   /\ up /\ pc = "bak"
   /\ res' = [op |-> "WriteBak", f |-> f, rel |-> NoFile]
   /\ CASE f = "ok"    -> /\ bak' = main /\ pc' = "new"
-                         /\ UNCHANGED <<up, mem, main, new, pend, prev, maxrel, ncrash, nfail>>
+                         /\ UNCHANGED <<up, mem, main, new, pend, prev, maxrel, wait, ncrash, nfail>>
        [] f = "fail"  -> Fails
        [] f = "realfail" -> Fails
        [] f = "crash" -> Crashes
@@ -109,7 +132,7 @@ WriteNew(f) ==     \* ioutil.WriteFile(filePath+".new", newBytes)
   /\ up /\ pc = "new"
   /\ res' = [op |-> "WriteNew", f |-> f, rel |-> NoFile]
   /\ CASE f = "ok"    -> /\ new' = pend /\ pc' = "rename"
-                         /\ UNCHANGED <<up, mem, main, bak, pend, prev, maxrel, ncrash, nfail>>
+                         /\ UNCHANGED <<up, mem, main, bak, pend, prev, maxrel, wait, ncrash, nfail>>
        [] f = "fail"  -> Fails
        [] f = "realfail" -> Fails
        [] f = "crash" -> Crashes
@@ -118,7 +141,7 @@ Rename(f) ==       \* os.Rename(filePath+".new", filePath)
   /\ up /\ pc = "rename"
   /\ res' = [op |-> "Rename", f |-> f, rel |-> NoFile]
   /\ CASE f = "ok"    -> /\ main' = new /\ new' = NoFile /\ pc' = "ret"
-                         /\ UNCHANGED <<up, mem, bak, pend, prev, maxrel, ncrash, nfail>>
+                         /\ UNCHANGED <<up, mem, bak, pend, prev, maxrel, wait, ncrash, nfail>>
        [] f = "fail"  -> Fails
        [] f = "realfail" -> Fails
        [] f = "crash" -> Crashes
@@ -127,7 +150,7 @@ Return(f) ==       \* save() returned nil: the signature is handed to the caller
   /\ up /\ pc = "ret"
   /\ res' = [op |-> "Return", f |-> f, rel |-> IF f = "ok" THEN pend ELSE NoFile]
   /\ CASE f = "ok"    -> /\ maxrel' = pend /\ pc' = "idle"
-                         /\ UNCHANGED <<up, mem, main, bak, new, pend, prev, ncrash, nfail>>
+                         /\ UNCHANGED <<up, mem, main, bak, new, pend, prev, wait, ncrash, nfail>>
        [] f = "crash" -> Crashes
 
 Crash ==           \* the process dies between two calls
@@ -139,13 +162,15 @@ Reload ==          \* restart: LoadPrivValidator(filePath) reads priv_validator.
   /\ ~up
   /\ up' = TRUE /\ mem' = main /\ pc' = "idle"
   /\ res' = [op |-> "Reload", rel |-> NoFile]
-  /\ UNCHANGED <<main, bak, new, pend, prev, maxrel, ncrash, nfail>>
+  /\ UNCHANGED <<main, bak, new, pend, prev, maxrel, wait, ncrash, nfail>>
 
 Next ==
   \/ \E h \in 1..MaxH, r \in 0..MaxR, s \in Steps, b \in Blocks, c \in {"regress", "same", "sign"} : Request(h, r, s, b, c)
   \/ \E f \in {"ok", "fail", "realfail", "crash"} : WriteBak(f) \/ WriteNew(f) \/ Rename(f)
   \/ \E f \in {"ok", "crash"} : Return(f)
   \/ Crash \/ Reload
+  \/ \E h \in 1..MaxH, r \in 0..MaxR, s \in Steps, b \in Blocks : Issue2(h, r, s, b)
+  \/ \E c \in {"regress", "same", "sign"} : Enter2(c)
 
 Spec == Init /\ [][Next]_vars
 
